@@ -220,6 +220,23 @@ PROPS = {
         'level_note': 'Trusted: rustc front end + MIR, the extractor.',
         'technique': 'dominator + who-may-write + error-origin rules over resolved MIR (rustc_private driver)',
     },
+    'C03': {
+        'module': 'c03',
+        'explanation': 'Structural clauses over MIR/HIR of scanner.rs and compiler.rs: the error list has one writer that every reporter '
+                       'reaches and parse() returns Ok only behind the final errors.is_empty() test; every path of scan_token consumes a '
+                       'character or reports end of input and the parser\'s driver/recovery loops scan on every iteration; the RULES table '
+                       '(read from HIR) has one entry per token kind, an infix handler wherever it has an infix precedence, and room to '
+                       'raise a binary operator\'s precedence; every comparison with an encoding limit refuses on its exceeding side; the '
+                       'only recursive cycles are the recorded recursive-descent ones.',
+        'assumptions': COMMON_ASSUME,
+        'not_decided': ['termination of every recovery path and absence of slicing/unwrap panics on garbled input (for-all-inputs statements '
+                        'about a hand-written parser: need execution, e.g. fuzzing, which is outside this technique family)',
+                        'native stack depth for deeply nested source (recursion depth = nesting depth; no bound is stated in the code)'],
+        'level_text': 'Decides T1-T5; totality of the parser on all inputs is not decided.',
+        'design_ref': 'DESIGN.md section 1, C03',
+        'level_note': 'Trusted: rustc front end + MIR/HIR, the extractor, rules/tables/c03_recursion_ok.json.',
+        'technique': 'who-may-write + must-pass/back-edge progress rules over MIR, table invariants over HIR (rustc_private driver)',
+    },
 }
 
 NOT_APPLICABLE = {
